@@ -40,6 +40,15 @@ CS = [r'class\s+char_subset\b']
 F('char_subset__add_range', r'constexpr\s+char_subset&\s+add_range\(char_range r\)', 'struct char_subset* char_subset__add_range(struct char_subset* self, struct regex__char_range r)', scope=CS,
   rules=[S(r'\bdata\.set\(', 'cbitset_set(&self->data, ', name='R4:data.set'), S(r'return \*this;', 'return self;', name='R4:this')])
 
+# string_view_to_subset: the decoder of a primary lexeme ('.', a set, a single element).  char_subset's one-line members flip() / set(idx) forward
+# to the bitset (pinned as facts); `char_subset cs;` is the defaulted constructor (member initialiser `data = {}`, pinned).
+F('regex__string_view_to_subset', r'constexpr\s+char_subset\s+string_view_to_subset\(std::string_view sv\)', 'struct char_subset regex__string_view_to_subset(struct vx_sv sv)',
+  rules=SV + [S(r'\bchar_subset cs;', 'struct char_subset cs; VX_CS_INIT(cs);', name='R19:char_subset()'),
+              S(r'\bregex_char\((.*?), len\)', r'regex__regex_char(\1, &len)', min=3, name='R5:len (local, passed by reference)'),
+              S(r'\bcs\.flip\(\)', 'cbitset_flip_all(&cs.data)', min=1, name='R4:char_subset::flip'),
+              S(r'\bcs\.add_range\(char_range\{([^{}]*)\}\)', r'char_subset__add_range(&cs, (struct regex__char_range){\1})', min=1, name='R4:add_range'),
+              S(r'\bcs\.set\(utils::char_to_idx\(', 'cbitset_set(&cs.data, utils__char_to_idx(', min=1, name='R4:char_subset::set(idx)')])
+
 # R14: the functors of the regex grammar that compute (the others forward to the builder): digit value, decimal accumulation, digit as a literal
 F('vx_regex_digit_value', r'constexpr custom_term regex_digit_09\("regex_digit_09", \[\]\(auto sv\)', 'size32_t vx_regex_digit_value(struct vx_sv sv)', rules=SV)
 F('vx_regex_number_step', r'number\(number, regex_digit_09\) >= \[\]\(size32_t n, size32_t x\)', 'size32_t vx_regex_number_step(size32_t n, size32_t x)')
@@ -60,12 +69,18 @@ static inline int vx_ctx_primary_char(char c) { g_pc_calls++; g_pc_arg = c; retu
 #define VX_HEX(c) (((c) >= 48 && (c) <= 57) || ((c) >= 97 && (c) <= 102) || ((c) >= 65 && (c) <= 70))
 #define VX_HEXVAL(c) ((c) <= 57 ? (c) - 48 : ((c) <= 70 ? (c) - 65 + 10 : (c) - 97 + 10))
 #define VX_BIT(b, i) (((b).data[(i) / 64] >> ((i) % 64)) & 1)
+#define VX_CS_INIT(cs) ((cs) = (struct char_subset){ .data = { .N = 256, .data = { 0 } } })
+''' + open(os.path.join(HERE, '..', 'contracts', 'set_item.h')).read() + r'''
+#define VX_SETMAX 20
+size_t g_w; int vx_acc, vx_w_in, vx_lexeme_ok; unsigned char vx_bd[VX_SETMAX + 16], vx_il[VX_SETMAX + 16]; size_t vx_prev[VX_SETMAX + 16];
 '''
-CB = SX.make_cbitset()
+CB = SX.make_cbitset(extra=True)
 for f in CB:
     f.harness, f.props = None, []
 UNIT = Unit('regex_decode', PRELUDE, CB + fns, consts=PC.UNINIT)
-UNIT.facts = SX.CB_FACTS + [r'stdex::cbitset<meta::distinct_values_count<char>> data = \{\};', r'char start;\s*char end;\s*\};']
+UNIT.facts = SX.CB_FACTS + [r'stdex::cbitset<meta::distinct_values_count<char>> data = \{\};', r'char start;\s*char end;\s*\};',
+                           r'constexpr char_subset\(\) = default;', r'constexpr char_subset& flip\(\) \{ data\.flip\(\); return \*this; \}',
+                           r'constexpr char_subset& set\(size_t idx\) \{ data\.set\(idx\); return \*this; \}']
 apply_spec(UNIT.fns, os.path.join(HERE, '..', 'contracts', 'regex_decode.spec'))
 
 
